@@ -1,4 +1,122 @@
-import PqV.Spec.File
+import PqV.Lemmas.Plain
+import PqV.Lemmas.Varint
+import PqV.Gen.SkipDef
+/-!
+# C01 — write → read round trip under every write option
+
+The round-trip oracle runs on the real code (harness/c01.py) and every written file is decoded by the
+Lean reader `Spec.File` (C02).  The theorems here cover the parts of the pipeline that are pure
+arithmetic or layout and hold for ALL inputs: the reader's shortcut over null-free definition levels
+matches the block the writer lays down (both REGENERATED from the source), the writer's two level
+layouts decode to the intended levels, INT96 and time-unit conversions are exact inverses, and
+cutting a column into pages at any offsets loses nothing.
+-/
 namespace PqV.Props.C01
-theorem placeholder_true : True := trivial
+open PqV.Spec PqV.Gen.SkipDef
+
+/-- iterations of `while n: ...; n //= shrink` -/
+def iters (shrink : Nat) : Nat → Nat → Nat
+  | 0, _ => 0
+  | fuel + 1, n => if n = 0 then 0 else 1 + iters shrink fuel (n / shrink)
+
+/-- bytes `skip_definition_bytes(io, num)` skips (constants regenerated from core.py) -/
+def skipLen (num : Nat) : Nat := base + step * iters shrink (num + 1) (num / div)
+
+/-- bytes of the null-free definition-level block `make_definitions` writes for `num` rows
+    (constants regenerated from writer.py): length prefix, varint(num << shift), the value byte -/
+def blockLen (num : Nat) : Nat := lenPrefix + uvarintLen (num <<< shift) + 1
+
+theorem uvarintLen_step (x : Nat) : uvarintLen x = if x < 128 then 1 else 1 + uvarintLen (x / 128) := by
+  unfold uvarintLen
+  conv => lhs; unfold uvarintEnc
+  split <;> simp <;> omega
+
+theorem varint_iters : ∀ (fuel m : Nat), m < fuel → uvarintLen m = 1 + iters 128 fuel (m / 128) := by
+  intro fuel
+  induction fuel with
+  | zero => intro m h; omega
+  | succ f ih =>
+    intro m h
+    rw [uvarintLen_step]
+    by_cases hm : m < 128
+    · have : m / 128 = 0 := by omega
+      simp [hm, this, iters]
+    · have hd : m / 128 ≠ 0 := by omega
+      simp only [hm, if_false, iters, hd]
+      rw [ih (m / 128) (by omega)]
+
+/-- **the reader's shortcut skips exactly the block the writer wrote**, for every row count — the
+    constants 6 / 64 / 128 of `skip_definition_bytes` and the layout of `make_definitions` are
+    regenerated from the source on every run, so an edit to either that breaks the agreement breaks
+    this theorem. -/
+theorem skip_matches_block (num : Nat) : skipLen num = blockLen num := by
+  simp only [skipLen, blockLen, base, step, shrink, div, lenPrefix, shift, Nat.shiftLeft_eq, Nat.pow_one, Nat.one_mul]
+  rw [varint_iters (num * 2 + 1) (num * 2) (by omega)]
+  have : num * 2 / 128 = num / 64 := by omega
+  rw [this]
+  -- iters with fuel num+1 vs num*2+1: both exceed the argument
+  have key : ∀ (f1 f2 n : Nat), n < f1 → n < f2 → iters 128 f1 n = iters 128 f2 n := by
+    intro f1
+    induction f1 with
+    | zero => intro f2 n h; omega
+    | succ f ih =>
+      intro f2 n h1 h2
+      obtain ⟨g, rfl⟩ : ∃ g, f2 = g + 1 := ⟨f2 - 1, by omega⟩
+      simp only [iters]
+      by_cases hn : n = 0
+      · simp [hn]
+      · simp only [hn, if_false]
+        rw [ih g (n / 128) (by omega) (by omega)]
+  rw [key (num + 1) (num * 2 + 1) (num / 64) (by omega) (by omega)]
+  omega
+
+/-- the value byte of the null-free block is the level it stands for -/
+theorem block_value_now : value = 1 := by decide
+
+/-- **the null-free block decodes to `num` levels 1** under the specification reader -/
+theorem nullfree_block_decodes (num : Nat) (tail : List Nat) (h : uvarintLen (num * 2) + 1 < 2 ^ 32) :
+    levelsV1 1 num (leBytes 4 (encodeRuns 1 [Run.rle num 1]).length ++ encodeRuns 1 [Run.rle num 1] ++ tail)
+      = some (List.replicate num 1, tail) := by
+  have hw : widthFor 1 = 1 := by decide
+  have := levelsV1_runs 1 num (by decide) [Run.rle num 1] tail (by rw [hw]; intro r hr; simp at hr; subst hr; simp [Run.wf])
+    (by simp [Run.values]) (by
+      rw [hw]
+      simp only [encodeRuns, List.flatMap_cons, List.flatMap_nil, List.append_nil, encodeRun, List.length_append, leBytes_length]
+      unfold uvarintLen at h; omega)
+  rw [hw] at this
+  simpa [Run.values] using this
+
+/-- **the block with nulls** (one bit-packed run of the not-null bits, padded to a whole byte) decodes to the bits -/
+theorem nullable_block_decodes (bits pad : List Nat) (hb : ∀ v ∈ bits ++ pad, v < 2) (h8 : (bits ++ pad).length % 8 = 0)
+    (tail : List Nat) (hlen : (encodeRuns 1 [Run.bp (bits ++ pad)]).length < 2 ^ 32) :
+    levelsV1 1 bits.length (leBytes 4 (encodeRuns 1 [Run.bp (bits ++ pad)]).length ++ encodeRuns 1 [Run.bp (bits ++ pad)] ++ tail)
+      = some (bits, tail) := by
+  have hw : widthFor 1 = 1 := by decide
+  have := levelsV1_runs 1 bits.length (by decide) [Run.bp (bits ++ pad)] tail
+    (by
+      rw [hw]; intro r hr; simp only [List.mem_cons, List.mem_nil_iff, or_false] at hr; subst hr
+      simp only [Run.wf, Bool.and_eq_true, decide_eq_true_eq, List.all_eq_true]
+      exact ⟨h8, fun v hv => by simpa using hb v hv⟩)
+    (by simp [Run.values]) (by rw [hw]; exact hlen)
+  rw [hw] at this
+  simpa [Run.values] using this
+
+/-- **INT96** (nanoseconds of day + Julian day) is an exact encoding of every nanosecond instant -/
+theorem int96_roundtrip (ns : Int) :
+    let day := ns / 86400000000000 + 2440588
+    let nod := ns % 86400000000000
+    (day - 2440588) * 86400000000000 + nod = ns ∧ 0 ≤ nod ∧ nod < 86400000000000 := by
+  refine ⟨?_, Int.emod_nonneg _ (by norm_num), Int.emod_lt_of_pos _ (by norm_num)⟩
+  omega
+
+/-- **time units**: scaling a stored value up to nanoseconds and back is exact -/
+theorem unit_scaling_exact (x : Int) (f : Int) (hf : 0 < f) : x * f / f = x := Int.mul_ediv_cancel x (by omega)
+
+/-- **paging**: cutting a column at any offset and concatenating the pieces gives the column -/
+theorem pages_concat {α} (xs : List α) (k : Nat) : xs.take k ++ xs.drop k = xs := List.take_append_drop k xs
+
+/-! ### non-vacuity -/
+example : skipLen 1000 = 7 ∧ skipLen 10 = 6 ∧ skipLen 20000 = 8 := by decide
+example : blockLen 20000 = 8 := by rw [← skip_matches_block]; decide
+
 end PqV.Props.C01
